@@ -5,13 +5,16 @@ patch applies; existing suite still gives >= 55 passed with only tests/test_all.
 exits 1 with the patch and 0 without it."""
 import sys, os, subprocess, json, re, shutil
 def sh(c, **k): return subprocess.run(c, shell=True, capture_output=True, text=True, **k)
-W = '/tmp/mut/val'
+import os as _os
+SRC = _os.environ.get('MUT_DIR', '/tmp/mut')
+VARIANTS = _os.environ.get('MUT_VARIANTS', 'AB')
+W = SRC + '/val'
 sh('git -C /repo worktree remove --force %s' % W); sh('git -C /repo worktree prune')
 r = sh('git -C /repo worktree add --detach %s HEAD' % W); assert r.returncode == 0, r.stderr
 try:
   for pid in sys.argv[1:]:
-    for v in 'AB':
-      base = '/tmp/mut/%s.%s' % (pid, v)
+    for v in VARIANTS:
+      base = SRC + '/%s.%s' % (pid, v)
       if not os.path.exists(base + '.diff'):
         print(pid, v, 'missing'); continue
       ran = []
